@@ -368,3 +368,11 @@ func verif_dec_dns_naming_DNSHandler_ProcessMDNS_2() int {
 func verif_inv_dns_naming_DNSHandler_ProcessMDNS_1(questions []dnsmessage.Question, rangeindex int) bool {
 	return -1 <= rangeindex && rangeindex < len(questions)
 }
+
+// the two loops that copy the model into the collected entries
+func verif_inv_dns_naming_DNSHandler_ProcessMDNS_3(ipv4 []packet.IPNameEntry, rangeindex int) bool {
+	return -1 <= rangeindex && rangeindex < len(ipv4)
+}
+func verif_inv_dns_naming_DNSHandler_ProcessMDNS_4(ipv6 []packet.IPNameEntry, rangeindex int) bool {
+	return -1 <= rangeindex && rangeindex < len(ipv6)
+}
